@@ -7,3 +7,10 @@ class Lst:
 
 class HasNoneTypeInName:
     pass
+
+
+class EllipsisMark:
+    """a class whose name contains `Ellipsis`"""
+
+    class Ellipsis:  # noqa: A003
+        pass
